@@ -543,6 +543,19 @@ def verify_all(ctx, repo, prop):
               "rustworkx subgraph(preserve_attrs) = induced subgraph sharing payloads (library)")
 
 
+def verify_readers_for(ctx, repo, prop, keep):
+    """the contracts of the small readers, claimed by another property: only the obligations whose name contains one of `keep` are that property's"""
+    prev = getattr(ctx, "vc_filter", None)
+    ctx.vc_filter = lambda name, kind: any(k in name for k in keep)
+    try:
+        dsl.verify(ctx, repo, dsl.Registry(), prop + ".graph", [TR + "." + m for m in ("nodes", "get_number_of_nodes", "data_log_likelihood", "outliers", "get_data", "get_data_len", "get_descendants",
+                                                                                         "get_number_of_descendants", "get_subtree_data_len", "add_data_point_to_outliers", "remove_data_point_from_outliers",
+                                                                                         "add_data_point_to_node", "_is_data_point_in_tree")],
+                   h_small, expect_covers=SMALL_COVERS)
+    finally:
+        ctx.vc_filter = prev
+
+
 # ----------------------------------------------------------------------------------------------------------- remove_subtree
 
 
